@@ -294,6 +294,14 @@ class Model():
                     return
                 field.remove(asset)
 
+        if found and asset not in left_field and asset not in right_field:
+            # The association still exists for the other assets, but the
+            # asset is no longer part of it.
+            assocs = list(asset.associations)
+            while association in assocs:
+                assocs.remove(association)
+            asset.associations = assocs
+
         if not found:
             raise LookupError(f'Asset "{asset.name}"({asset.id}) is not '
                 'part of the association provided.')
